@@ -10,6 +10,8 @@ pub mod c07;
 pub mod c08;
 pub mod c10;
 pub mod c12;
+pub mod c13;
+pub mod c14;
 pub mod c15;
 
 pub fn dispatch(prop: &str, cfg: &Cfg) -> Option<(Log, Meta)> {
@@ -22,6 +24,8 @@ pub fn dispatch(prop: &str, cfg: &Cfg) -> Option<(Log, Meta)> {
     "C07" => c07::run(cfg),
     "C08" => c08::run(cfg),
     "C12" => c12::run(cfg),
+    "C13" => c13::run(cfg),
+    "C14" => c14::run(cfg),
     "C15" => c15::run(cfg),
     _ => return None,
   })
